@@ -2,6 +2,7 @@
 Spec: spec/Validators.tla (grammar + automaton over character classes; generator machine)."""
 import random
 
+from . import fakes  # noqa: F401  (installs the quiet log observer, repo path)
 from . import core, tlc
 from txdbus import marshal, message
 from txdbus.error import MarshallingError
